@@ -8,7 +8,7 @@ import numpy as np
 from .. import gen
 from ..clock import is_timer_limit_read, is_timer_start
 from ..runner import execute
-from .common import V, chain_accept, iterate_after, knob_key, seam_violations, small_sample
+from .common import V, chain_accept, iterate_after, knob_key, same_point, seam_violations, small_sample
 
 ID = "C08"
 LEVEL = "fault_enumeration"
@@ -27,13 +27,22 @@ TIERS = {
     "quick": {"worlds": 160, "wall": 150, "cap": 20, "limit": 90.0, "max_points": 40},
     "thorough": {"worlds": 2400, "wall": 1500, "cap": 80, "limit": 240.0, "max_points": 64},
 }
-GATES = ("reference.with_failed_trials", "stops.deadline.with_display_rows", "stops.iter", "stops.deadline", "stops.deadline.inner", "stops.iter.reused_solver", "nontrivial")
+GATES = ("stops.integration.iter", "stops.integration.deadline", "reference.with_failed_trials", "stops.deadline.with_display_rows", "stops.iter", "stops.deadline", "stops.deadline.inner", "stops.iter.reused_solver", "nontrivial")
 
 
 def generate(rng, seed, index, tier):
+    if rng.random() < 0.1:
+        # the flow-integration solver has the same two limits (one deadline check per integration)
+        fam = str(rng.choice(["qp", "nlp"]))
+        spec, x0, y0 = gen.gen_problem(rng, fam)
+        kw = {"iteration_limit": int(rng.integers(3, 9)), "collect_path": True, "display_interval": float(rng.choice([0.0, 1e18]))}
+        if rng.random() < 0.3:
+            kw["scaling_type"] = "Custom"
+            kw["scaling"] = {"var": rng.integers(-2, 3, size=spec["n"]).tolist(), "cons": rng.integers(-2, 3, size=spec["m"]).tolist(), "obj": int(rng.integers(-1, 2))}
+        return gen.base_world(seed, ID, index, spec, x0, y0, kw, clock={"steps": [], "tail": float(rng.choice([0.0, 0.03]))}, solver="integration", case={"pts_seed": int(rng.integers(0, 2**31))})
     fam = str(rng.choice(["qp", "nlp", "degenerate", "domain", "infeasible", "saddle", "expo"], p=[0.3, 0.3, 0.08, 0.08, 0.08, 0.08, 0.08]))
     spec, x0, y0 = gen.gen_problem(rng, fam)
-    kw = gen.gen_params(rng, spec, x0, y0, p_knob=0.5, reporting=False)
+    kw = gen.gen_params(rng, spec, x0, y0, p_knob=0.5, reporting=False, numeric=0.2)
     if rng.random() < 0.4:
         kw["step_control_type"] = "Exact"
     if rng.random() < 0.3:
@@ -86,8 +95,8 @@ def _compare_prefix(R, S, p, racc, rt, sub, ctx, allow_aborted, expect_status):
         return out
     if extra == 1:
         t = S.trials[-1]
-        if t.accepted or t.out is not t.inp or t.lamb != 2.0 * (1.0 / t.dt):
-            out.append(V(ID, "aborted-trial", "extra trial after the deadline is not a clean abort (accepted=%s, same iterate=%s)" % (t.accepted, t.out is t.inp), sub, ctx))
+        if t.accepted or not same_point(t.out, t.inp):
+            out.append(V(ID, "aborted-trial", "extra trial after the deadline is not a clean abort (accepted=%s, same iterate=%s)" % (t.accepted, same_point(t.out, t.inp)), sub, ctx))
     if S.status not in expect_status:
         out.append(V(ID, "status", "status %s, expected one of %s" % (S.status, sorted(expect_status)), sub, ctx))
     A = iterate_after(R, p, racc)
@@ -110,7 +119,113 @@ def _compare_prefix(R, S, p, racc, rt, sub, ctx, allow_aborted, expect_status):
     return out
 
 
+def _res_bytes(r):
+    return (r.x.tobytes(), r.y.tobytes(), r.d.tobytes())
+
+
+def _integration_case(world):
+    """The flow-integration solver under the same two limits.  It has no trial log; its state after p
+    integrations is the end of the p-th path segment (kept on the solver object), and the stopped
+    run's result is compared with the run limited to p iterations (two executions of the same code)."""
+    only = (world.get("case") or {}).get("only")
+    stats, viol, keys = {}, [], []
+
+    def bump(k, n=1):
+        stats[k] = stats.get(k, 0) + n
+
+    R = execute(world)
+    execs = 1
+    bump("integration.ref." + R.outcome.split("@")[0])
+    if R.result is None or R.result.iterations < 1 or not getattr(R.solver, "path", None):
+        return {"violations": [], "stats": stats, "keys": [], "executions": 1, "sample": None}
+    L = int(R.result.iterations)
+    segs = R.solver.path  # [start column] + one segment per integration
+    tsegs = R.solver.path_times
+    if len(segs) != L + 1:
+        raise RuntimeError("integration seam: %d path segments for %d iterations" % (len(segs), L))
+    ctx0 = {"solver": "integration"}
+    rdig = "int:" + R.result.x.tobytes().hex()[:12]
+
+    def check_state(S, p, sub, ctx, expect_status):
+        out = []
+        if S.result is None:
+            out.append(V(ID, "stopped-run-raised", "stopped integration run ended with %s" % S.outcome, sub, ctx))
+            return out
+        r = S.result
+        if r.iterations != p:
+            out.append(V(ID, "counters", "stopped after %d integrations but reports iterations=%d" % (p, r.iterations), sub, ctx))
+        if expect_status is not None and S.status not in expect_status:
+            out.append(V(ID, "status", "status %s, expected one of %s" % (S.status, sorted(expect_status)), sub, ctx))
+        zp = segs[p][:, -1]
+        rt = R.ref_transform()
+        x, y, _ = rt.to_user(zp[: rt.N], zp[rt.N :], np.zeros(rt.N))
+        if x.tobytes() != r.x.tobytes() or y.tobytes() != r.y.tobytes():
+            out.append(V(ID, "result", "returned x/y are not the state the reference had after %d integrations" % p, sub, ctx))
+        if r.path is None:
+            out.append(V(ID, "path", "no path although collect_path is on", sub, ctx))
+        else:
+            ep = np.hstack(segs[: p + 1])
+            et = np.hstack(tsegs[: p + 1])
+            if r.path.shape != ep.shape or r.path.tobytes() != np.ascontiguousarray(ep).tobytes() or r.model_times.tobytes() != np.ascontiguousarray(et).tobytes():
+                out.append(V(ID, "path", "path/model_times of the stopped run (%s columns) are not the reference's first %d segments (%d columns)" % (r.path.shape[1], p, ep.shape[1]), sub, ctx))
+            elif r.path[:, -1].tobytes() != zp.tobytes():
+                out.append(V(ID, "path", "the path does not end in the returned state", sub, ctx))
+        return out
+
+    byk = {}
+    for k in range(1, L + 1):
+        sub = {"ik": k}
+        if only is not None and only != sub and not ("ij" in (only or {})):
+            continue
+        S = execute(dict(world, params=dict(world["params"], iteration_limit=k)))
+        execs += 1
+        bump("stops.integration.iter")
+        byk[k] = S
+        exp = {"IterationLimit"} if k < L else {R.status}
+        viol += check_state(S, k, sub, dict(ctx0, t=k), exp)
+        if k < L:
+            bump("nontrivial")
+            keys.append("%s:ik%d" % (rdig, k))
+    reads = R.clock.reads
+    starts = [i for i, (w, _) in enumerate(reads) if is_timer_start(w)]
+    start = starts[0] if starts else -1
+    limit_reads = [i for i, (w, _) in enumerate(reads) if is_timer_limit_read(w)]
+    if not limit_reads:
+        raise RuntimeError("clock seam: no Timer limit read in the integration solver among readers %r" % sorted(set(w for w, _ in reads)))
+    for j in range(start + 1, len(reads) + 1):
+        sub = {"ij": j}
+        if only is not None and only != sub:
+            continue
+        w2 = copy.deepcopy(world)
+        w2["params"]["time_limit"] = 1e6
+        w2["clock"] = dict(world.get("clock") or {}, expire_at_read=j)
+        S = execute(w2)
+        execs += 1
+        bump("stops.integration.deadline")
+        nxt = [i for i in limit_reads if i >= j]
+        ctx = dict(ctx0, j=j)
+        if not nxt:
+            if S.result is None or S.status != R.status or _res_bytes(S.result) != _res_bytes(R.result):
+                viol.append(V(ID, "late-deadline", "deadline after the last limit check changed the integration run (%s vs %s)" % (S.outcome, R.outcome), sub, ctx))
+            continue
+        # integrations the reference had completed at the stop moment (sampled at that very read)
+        p = R.clock.probed[nxt[0]] if nxt[0] < len(R.clock.probed) else None
+        if p is None or not (0 <= p < len(segs)):
+            raise RuntimeError("integration seam: no progress sample for clock read %d" % nxt[0])
+        ctx["t"] = p
+        bump("nontrivial")
+        keys.append("%s:ij%d" % (rdig, j))
+        vs = check_state(S, p, sub, ctx, {"TimeLimit"})
+        if not vs and p in byk and byk[p].result is not None and S.result.d.tobytes() != byk[p].result.d.tobytes():
+            vs.append(V(ID, "result", "returned d differs from the run limited to %d iterations" % p, sub, ctx))
+        viol += vs
+    sample = small_sample(world, {"reference": {"integrations": L, "outcome": R.outcome, "clock_reads": len(reads)}})
+    return {"violations": viol, "stats": stats, "keys": keys, "executions": execs, "sample": sample}
+
+
 def case(world):
+    if world.get("solver") == "integration":
+        return _integration_case(world)
     only = (world.get("case") or {}).get("only")
     maxn = (world.get("case") or {}).get("max_points", 40)
     pseed = (world.get("case") or {}).get("pts_seed", 0)
@@ -130,7 +245,7 @@ def case(world):
     if TR == 0 or (TR and R.trials[-1].exc is not None and TR == 1):
         return {"violations": [], "stats": stats, "keys": [], "executions": 1, "sample": None}
     racc = chain_accept(R)
-    if any((not t.accepted) and t.out is t.inp for t in R.trials):
+    if any((not t.accepted) and same_point(t.out, t.inp) for t in R.trials):
         bump("reference.with_failed_trials")
     rt = R.ref_transform()
     rdig = R.traj_digest()
